@@ -555,3 +555,44 @@ Proof. exact bits_in_range_spec. Qed.
 
 Theorem c14_code_ceil_log2_is_model : forall x, (0 < x)%N -> Fns.ceil_log2 x = N.log2_up x.
 Proof. exact ceil_log2_is_log2_up. Qed.
+
+(* ------------------------------------------------------------------------------------------------
+   Tie to the code, wave 2 (see design.d/GEN.md): the shrink decision of TransactionalMemory::try_shrink, the
+   shrink policy tests of commit(), check_page_order, the order of page numbers and the length table of the
+   serialized region tracker (a `for` loop of RegionTracker::from_bytes). *)
+From RV Require Import Gen.FnsLibB.
+
+Theorem c14_code_try_shrink_is_model : forall m force,
+  let l := lay m in
+  let last_a := lget (regs (als m)) (num_regions l - 1) dummy_buddy in
+  mem_try_shrink m force =
+  match try_shrink_reduce_by (trailing_free_pages last_a) (blen last_a) (num_regions l) force with
+  | None => (false, m)
+  | Some reduce_by => let nl := reduce_last_region l reduce_by in (true, mkMem nl (resize_to (als m) nl))
+  end.
+Proof. exact try_shrink_is_model. Qed.
+
+Theorem c14_code_commit_shrink_policy_is_model :
+  commit_shrink_attempted ShrinkPolicy_Default = true /\ commit_shrink_force ShrinkPolicy_Default = false
+  /\ commit_shrink_attempted ShrinkPolicy_Maximum = true /\ commit_shrink_force ShrinkPolicy_Maximum = true
+  /\ commit_shrink_attempted ShrinkPolicy_Never = false /\ commit_shrink_force ShrinkPolicy_Never = false.
+Proof. exact commit_shrink_policy_is_model. Qed.
+
+Theorem c14_code_check_page_order_is_model : forall p,
+  isSome (TransactionalMemory_check_page_order p) = (PageNumber_f_page_order p <=? MAX_MAX_PAGE_ORDER)%N.
+Proof. exact check_page_order_is_model. Qed.
+
+Theorem c14_code_page_number_cmp_is_model : forall a b,
+  PageNumber_cmp a b =
+  match (PageNumber_f_region a ?= PageNumber_f_region b)%N with
+  | Eq => (PageNumber_f_page_index a * 2 ^ PageNumber_f_page_order a
+           ?= PageNumber_f_page_index b * 2 ^ PageNumber_f_page_order b)%N
+  | c => c
+  end.
+Proof. exact page_number_cmp_is_model. Qed.
+
+Theorem c14_code_region_tracker_lens_is_model : forall page : bytes,
+  let orders := le_decode (nfirstn 4 page) in
+  region_tracker_allocator_lens page
+  = (map le_decode (chunks4 (N.to_nat orders) (nskipn 4 page)), (4 + 4 * orders)%N).
+Proof. exact region_tracker_lens_is_model. Qed.
